@@ -24,8 +24,8 @@ VARIABLES ks,        \* c -> current keyspace ("" = none)
           table,     \* key <<attr, ks>> -> session id
           lock,      \* [r |-> set of clients holding the read lock, w |-> writer or "none"]
           ops,       \* operations started
-          log,       \* history: forwarded requests <<c, ks[c] at forward time, session ks, session attr>>
-          replies    \* history: <<c, kind, ks>>
+          log,       \* the last forwarded request: <<c, ks[c] at forward time, session ks, session attr>>
+          replies    \* the last reply: <<c, kind, ks>>
 
 vars == <<ks, pc, tgt, news, sess, table, lock, ops, log, replies>>
 
@@ -67,14 +67,14 @@ UseStore(c) ==
 UseReply(c) ==
     /\ pc[c] = "reply"
     /\ ks' = [ks EXCEPT ![c] = tgt[c]]
-    /\ replies' = Append(replies, <<c, "setks", tgt[c]>>)
+    /\ replies' = <<c, "setks", tgt[c]>>
     /\ lock' = [lock EXCEPT !.r = @ \ {c}]
     /\ pc' = [pc EXCEPT ![c] = "idle"]
     /\ UNCHANGED <<tgt, news, sess, table, ops, log>>
 
 UseFail(c) ==
     /\ pc[c] = "fail"
-    /\ replies' = Append(replies, <<c, "error", tgt[c]>>)
+    /\ replies' = <<c, "error", tgt[c]>>
     /\ lock' = [lock EXCEPT !.r = @ \ {c}]
     /\ pc' = [pc EXCEPT ![c] = "idle"]
     /\ UNCHANGED <<ks, tgt, news, sess, table, ops, log>>
@@ -84,12 +84,12 @@ Forward(c) ==
     /\ pc[c] = "idle" /\ ops < MaxOps /\ lock.w = "none"
     /\ ops' = ops + 1
     /\ IF Key(c, ks[c]) \in DOMAIN table
-       THEN /\ log' = Append(log, <<c, ks[c], sess[table[Key(c, ks[c])]].ks, sess[table[Key(c, ks[c])]].attr>>)
+       THEN /\ log' = <<c, ks[c], sess[table[Key(c, ks[c])]].ks, sess[table[Key(c, ks[c])]].attr>>
             /\ UNCHANGED <<sess, table>>
        ELSE \* created on demand (the default session of a new version/compression); "" is always valid
             /\ sess' = NewSession(ks[c], Attr[c])
             /\ table' = (Key(c, ks[c]) :> Len(sess) + 1) @@ table
-            /\ log' = Append(log, <<c, ks[c], ks[c], Attr[c]>>)
+            /\ log' = <<c, ks[c], ks[c], Attr[c]>>
     /\ UNCHANGED <<ks, pc, tgt, news, lock, replies>>
 
 Next == \E c \in Clients : (\E k \in Keyspaces : UseStart(c, k)) \/ UseConnect(c) \/ UseStore(c) \/ UseReply(c) \/ UseFail(c) \/ Forward(c)
@@ -97,7 +97,7 @@ Spec == Init /\ [][Next]_vars
 
 -----------------------------------------------------------------------------
 \* C07: a forwarded request runs on a session whose keyspace/version/compression are the client's
-ForwardInClientKs == \A i \in DOMAIN log : log[i][2] = log[i][3] /\ log[i][4] = Attr[log[i][1]]
+ForwardInClientKs == log # <<>> => (log[2] = log[3] /\ log[4] = Attr[log[1]])
 \* C07: only valid keyspaces ever become current; a failed USE leaves the previous keyspace in force
 OnlyValidKs == \A c \in Clients : ks[c] = "" \/ ks[c] \in Valid
 FailedUseKeepsKs == [][\A c \in Clients : pc[c] = "fail" => ks'[c] = ks[c]]_vars
